@@ -491,3 +491,45 @@ Section TrySteps.
   Theorem no_handler rs : handle_results None rs = Ret rs.
   Proof. reflexivity. Qed.
 End TrySteps.
+
+(* ====================================================================== C12: `let` names *)
+Section Names.
+  Variable p : sprog.
+  Variable T : nat -> nat -> dval -> Prop.
+  Notation n := (List.length (sp_trees p)).
+
+  Definition shown (d : option dval) : option val := match d with Some (DV v) => Some v | _ => None end.
+
+  (* what a snapshot contains: for every named branch, in branch order, the value the branch holds *)
+  Lemma snap_of_entries names st x ov :
+    In (x, ov) (flat_map (fun nv : option string * option dval => match fst nv with Some y => [(y, shown (snd nv))] | None => [] end) (combine names st)) ->
+    exists b, nth_error names b = Some (Some x) /\ exists od, nth_error st b = Some od /\ ov = shown od.
+  Proof.
+    revert st. induction names as [|nm names IH]; intros [|d st] H; cbn in H; try contradiction.
+    destruct nm as [y|]; cbn in H.
+    - destruct H as [E|H].
+      + inversion E; subst. exists 0. cbn. split; [reflexivity|]. exists d. auto.
+      + destruct (IH st H) as (b & Hb & od & Hs & Ho). exists (S b). cbn. eauto.
+    - destruct (IH st H) as (b & Hb & od & Hs & Ho). exists (S b). cbn. eauto.
+  Qed.
+
+  (* C12: the snapshot every capture of step k (k >= 1) sees maps the name of branch b to a value that branch b
+     produced in its MOST RECENT step so far - step min(k-1, depth b - 1): also after the branch has finished;
+     in try macros the state holds the still wrapped value, so that is what the name shows *)
+  Theorem name_sees_latest_step_result k st x ov :
+    StateOK p T k st -> 0 < k -> List.length (sp_names p) = n ->
+    In (x, ov) (snap_of p st) ->
+    exists b d, b < n /\ nth_error (sp_names p) b = Some (Some x) /\ nth b st None = Some d /\
+                T b (Nat.min (k - 1) (depth p b - 1)) d /\ ov = shown (Some d).
+  Proof.
+    intros [Hlen Hst] Hk Hnames Hin. unfold snap_of in Hin.
+    assert (Hin' : In (x, ov) (flat_map (fun nv : option string * option dval => match fst nv with Some y => [(y, shown (snd nv))] | None => [] end)
+                                        (combine (sp_names p) st))).
+    { erewrite flat_map_ext; [exact Hin|]. intros [[y|] [[v| | | | | |]|]]; reflexivity. }
+    destruct (snap_of_entries _ _ _ _ Hin') as (b & Hb & od & Hs & Ho).
+    assert (Hbn : b < n). { rewrite <- Hlen. apply nth_error_Some. congruence. }
+    destruct (Hst b Hbn Hk) as (d & Hd & HT).
+    assert (od = Some d). { apply nth_error_nth with (d := None) in Hs. congruence. }
+    subst od. exists b, d. repeat split; auto.
+  Qed.
+End Names.
